@@ -17,8 +17,8 @@ Null == P!Null
 
 (* ---------- statement trees ---------- *)
 (* Leaves: what a return statement returns, as a sequence of literal types (a non-tuple occupies position 1).   *)
-RetLeaves == << <<"int">>, <<"float">>, <<"str">>, <<"bool">>, <<"none">>, <<"int", "str">>, <<"int", "float", "none">>, <<"int">>, <<"str", "int">>, <<"none">> >>
-NLeaf == Len(RetLeaves)      \* leaf 8 is `-1` (a unary expression); leaf 9 is leaf 6 with its positions swapped; leaf 10 is a bare `return`
+RetLeaves == << <<"int">>, <<"float">>, <<"str">>, <<"bool">>, <<"none">>, <<"int", "str">>, <<"int", "float", "none">>, <<"int">>, <<"str", "int">>, <<"none">>, <<"int", "int">> >>
+NLeaf == Len(RetLeaves)      \* leaf 8 is `-1` (a unary expression); leaf 9 is leaf 6 with its positions swapped; leaf 10 is a bare `return`; leaf 11 has one type twice
 Ret(v) == [k |-> "ret", v |-> v, b |-> <<>>]
 Comp(k, bodies) == [k |-> k, v |-> 0, b |-> bodies]
 
@@ -56,8 +56,8 @@ Bodies(tier) ==
   LET all == 1..NLeaf
       small == {1, 3, 5, 6, 7, 9}
       tiny == {1, 5, 6}
-      exprs == all \ {10}       \* a bare return has no expression to put into a conditional expression
-  IN B0(all) \cup Compounds(B0(all), small \cup {10}) \cup Conds(exprs) \cup Elifs(small)
+      exprs == all \ {10, 11}       \* a bare return has no expression to put into a conditional expression
+  IN B0(all) \cup Compounds(B0(all \ {11}), small \cup {10}) \cup Conds(exprs) \cup Elifs(small)
      \cup ElseClauses(small)
      \cup { <<>> }                                                     \* no return statement at all
      \cup Compounds(Compounds(B0(tiny), {2}) \cup Conds(tiny), {7})    \* depth 2
@@ -91,6 +91,7 @@ Universe(tier) ==
   \cup { [mode |-> "inf", ret |-> NoTerm, style |-> d[1], ndoc |-> 1, named |-> d[3], body |-> b]
          : d \in { <<"GOOGLE", 1, FALSE>>, <<"REST", 1, FALSE>>, <<"NUMPYDOC", 1, FALSE>>, <<"NUMPYDOC", 1, TRUE>> },
            b \in B0(1..NLeaf) \cup Conds(IF tier = "quick" THEN {1, 3, 5, 6, 7, 9} ELSE 1..9) }
+  \cup { [mode |-> "inf", ret |-> NoTerm, style |-> "NUMPYDOC", ndoc |-> 2, named |-> TRUE, body |-> b] : b \in B0({6, 11}) }
   \* no return statement at all, results known from the docstring only: they are named like any other unnamed result
   \cup { [mode |-> "inf", ret |-> NoTerm, style |-> d[1], ndoc |-> d[2], named |-> FALSE, body |-> <<>>]
          : d \in { <<"GOOGLE", 1, FALSE>>, <<"REST", 1, FALSE>>, <<"NUMPYDOC", 1, FALSE>>, <<"NUMPYDOC", 2, FALSE>>, <<"NUMPYDOC", 3, FALSE>> } }
@@ -152,7 +153,15 @@ Emit == pc = "done" => PrintT(ToJson(sc))
 ObsTypes(obs) == [ i \in 1..Len(obs.res) |-> P!ObsCanon(obs.res[i].ty) ]
 ObsNames(obs) == [ i \in 1..Len(obs.res) |-> obs.res[i].name ]
 
+JudgeDistinct(s, obs) ==
+  LET on == ObsNames(obs) IN
+  IF \E i, j \in 1..Len(on) : i < j /\ on[i] = on[j]
+  THEN { [property |-> "C07", clause |-> "Names",
+          sig |-> "names:duplicate:" \o s.mode \o ":" \o s.style \o ":" \o (IF s.named THEN "named" ELSE "unnamed") \o ":" \o ToString(s.ndoc) \o "of" \o ToString(Len(on)),
+          expected |-> "pairwise distinct result names", observed |-> ToString(on)] }
+  ELSE {}
 Judge(s, obs) ==
+  (IF obs.missing THEN {} ELSE JudgeDistinct(s, obs)) \cup
   IF obs.missing THEN { [property |-> "C07", clause |-> "Results", sig |-> s.mode \o ":declaration-missing", expected |-> "declared", observed |-> "absent"] }
   ELSE IF s.mode = "ann" THEN
     LET et == ResultTypes(s)
@@ -165,12 +174,6 @@ Judge(s, obs) ==
         THEN { [property |-> "C07", clause |-> "Results",
                 sig |-> "ann:" \o s.ret.k \o (IF Len(ot) # Len(et) THEN ":count" ELSE ":type"),
                 expected |-> ToString(et), observed |-> ToString(ot)] }
-        ELSE {})
-       \cup
-       (IF \E i, j \in 1..Len(on) : i < j /\ on[i] = on[j]
-        THEN { [property |-> "C07", clause |-> "Names",
-                sig |-> "names:duplicate:" \o s.style \o ":" \o (IF s.named THEN "named" ELSE "unnamed") \o ":" \o ToString(s.ndoc) \o "of" \o ToString(Len(en)),
-                expected |-> "pairwise distinct result names", observed |-> ToString(on)] }
         ELSE {})
        \cup
        (IF Len(on) = Len(en) /\ \E i \in 1..Len(en) : en[i] # "*" /\ en[i] # on[i]
